@@ -71,7 +71,12 @@ const ATTR_SHAPES: &[&str] = &[
     " id=t x=\"\" y data-v=old",
     " id=t d=\"1\"x='2'/Q",
     "\tid=t\nb\x0c=\n''\n=c\n",
+    // self-closing syntax on a non-void HTML element (ignored by the parser: the element keeps
+    // its content and its end tag); only used on the plain HTML templates
+    " id=t /",
+    " id=\"t\"/",
 ];
+const SLASH_SHAPES_FROM: usize = 10;
 
 pub struct Case {
     pub shape: usize,
@@ -173,7 +178,9 @@ const SPECIAL_NAMES: &[&str] = &["script", "style", "title", "textarea", "xmp", 
 
 pub fn check_case(c: &Case, st: &mut Stats) -> PResult {
     let (tpl0, inner_mode) = TEMPLATES[c.template];
-    let tpl_owned = tpl0.replacen(" id=t", ATTR_SHAPES[c.shape], 1);
+    let plain_html = matches!(c.template, 0 | 1 | 9);
+    let shape = if c.shape >= SLASH_SHAPES_FROM && !plain_html { 0 } else { c.shape };
+    let tpl_owned = tpl0.replacen(" id=t", ATTR_SHAPES[shape], 1);
     let tpl: &str = &tpl_owned;
     let has_comment = tpl.contains("<!--c-->");
     if matches!(c.ins, Ins::CommentBefore | Ins::CommentAfter | Ins::CommentReplace | Ins::CommentSetText) && !has_comment {
@@ -352,7 +359,8 @@ pub fn check_case(c: &Case, st: &mut Stats) -> PResult {
     let dangerous = c.s.chars().any(|ch| "<>&\"'=/-! \t\n\r\u{c}\0".contains(ch)) || !mappable;
     st.label(&format!("{:?}", c.ins));
     st.label(&format!("mode_{inner_mode}"));
-    st.label_if(c.shape > 1, "unusual_attribute_list");
+    st.label_if(shape > 1, "unusual_attribute_list");
+    st.label_if(shape >= SLASH_SHAPES_FROM, "self_closing_syntax_on_html_element");
     st.label_if(!mappable, "unmappable_char");
     st.label_if(api_result == Some(true), "api_accepted");
     if dangerous {
@@ -368,7 +376,7 @@ impl Prop for C08 {
         "C08"
     }
     fn rule(&self) -> String {
-        "case = (one of 10 templates covering Data, RCDATA, RAWTEXT, script, SVG, MathML-integration-point and comment contexts, the target element carrying one of 9 attribute-list shapes [plain, empty quoted value followed by an `=`-led name, `/` separator, value-less, duplicate, unquoted/quoted without separating space, odd whitespace]; one of 19 insertion points: element before/after/prepend/append/replace/set_inner_content, end-tag before/after, text-chunk and comment before/after/replace, document end (all ContentType::Text), set_attribute value, set_attribute name, set_tag_name, Comment::set_text; a string of 0-6 pieces from an alphabet biased to < > & \" ' - ! / = whitespace CR FF NUL comment/CDATA/script terminators, entities, non-BMP and unmappable characters; one of 36 encodings; one cut). oracle: the output decoded and re-parsed by html5ever (tokenizer + tree builder) == the template's token list plus exactly the inserted text node / attribute / comment text / renamed tag pair (text compared after the parser's own entity decoding; raw-text contexts compare the escaped form; attribute values are markup-level: raw re-read through lol-html must equal the argument with '\"' escaped); lol-html's own re-tokenisation has the same shape; a rejected call leaves the output byte-identical to the input; plain alphanumeric strings must be accepted. non-trivial = the string contains a markup-significant, whitespace/control or unmappable character".into()
+        "case = (one of 10 templates covering Data, RCDATA, RAWTEXT, script, SVG, MathML-integration-point and comment contexts, the target element carrying one of 11 attribute-list shapes [plain, self-closing syntax on a non-void HTML element, empty quoted value followed by an `=`-led name, `/` separator, value-less, duplicate, unquoted/quoted without separating space, odd whitespace]; one of 19 insertion points: element before/after/prepend/append/replace/set_inner_content, end-tag before/after, text-chunk and comment before/after/replace, document end (all ContentType::Text), set_attribute value, set_attribute name, set_tag_name, Comment::set_text; a string of 0-6 pieces from an alphabet biased to < > & \" ' - ! / = whitespace CR FF NUL comment/CDATA/script terminators, entities, non-BMP and unmappable characters; one of 36 encodings; one cut). oracle: the output decoded and re-parsed by html5ever (tokenizer + tree builder) == the template's token list plus exactly the inserted text node / attribute / comment text / renamed tag pair (text compared after the parser's own entity decoding; raw-text contexts compare the escaped form; attribute values are markup-level: raw re-read through lol-html must equal the argument with '\"' escaped); lol-html's own re-tokenisation has the same shape; a rejected call leaves the output byte-identical to the input; plain alphanumeric strings must be accepted. non-trivial = the string contains a markup-significant, whitespace/control or unmappable character".into()
     }
     fn assumptions(&self) -> Vec<String> {
         vec!["html5ever 0.39 as the re-parser; WHATWG preprocessing (CR->LF, NUL->U+FFFD outside the data state) applied to the expected text".into(), "set_tag_name only on ordinary elements and to names without a special content model (documented precondition)".into()]
@@ -384,6 +392,7 @@ impl Prop for C08 {
     }
     fn describe(&self, tape: &[u16]) -> Value {
         let c = decode(tape);
-        json!({"template": TEMPLATES[c.template].0.replacen(" id=t", ATTR_SHAPES[c.shape], 1), "op": format!("{:?}", c.ins), "string": c.s, "encoding": c.enc.name(), "cut": c.cut})
+        let shape = if c.shape >= SLASH_SHAPES_FROM && !matches!(c.template, 0 | 1 | 9) { 0 } else { c.shape };
+        json!({"template": TEMPLATES[c.template].0.replacen(" id=t", ATTR_SHAPES[shape], 1), "op": format!("{:?}", c.ins), "string": c.s, "encoding": c.enc.name(), "cut": c.cut})
     }
 }
